@@ -143,6 +143,11 @@ func c17Run(c *harness.Check, cs respCase) string {
 			return w.Body.String()
 		})
 		tpl, lerr := textwire.NewTemplate(conf)
+		if conf != nil {
+			// the configuration is what was passed to NewTemplate: what the caller does with its
+			// own Config value afterwards is no input of later responses
+			conf.DebugMode, conf.ErrorPagePath, conf.TemplateDir, conf.TemplateExt = !conf.DebugMode, "zz/other-error-page", "zz/elsewhere", ".zz"
+		}
 		if lerr != nil {
 			failure = "harness: tree does not load: " + lerr.Error()
 			return
